@@ -632,7 +632,27 @@ func r4C15(c *Ctx) {
 		return
 	}
 	bad := ""
-	succ := successReturn(fin)
+	succ0 := successReturn(fin)
+	// errList.ToAggregate() is nil whenever nothing was collected: such a return can report success too
+	succ := func(in ssa.Instruction) bool {
+		if succ0(in) {
+			return true
+		}
+		ret, ok := in.(*ssa.Return)
+		if !ok || ret.Block() == fin.Recover || len(ret.Results) == 0 {
+			return false
+		}
+		for _, lf := range Leaves(Forwarded(ret.Results[len(ret.Results)-1]), ret.Block()) {
+			v := lf.V
+			if ci, ok := v.(*ssa.ChangeInterface); ok {
+				v = Forwarded(ci.X)
+			}
+			if call, ok := v.(*ssa.Call); ok && call.Call.StaticCallee() != nil && call.Call.StaticCallee().Name() == "ToAggregate" {
+				return true
+			}
+		}
+		return false
+	}
 	for b := range inLoop {
 		for _, in := range b.Instrs {
 			if succ(in) {
